@@ -84,6 +84,11 @@ func VerifC17Analytic() {
 	val := make([]int64, n)
 	rows := make([][]value.Primary, n)
 	usesValues := qi >= 6 && qi != 15
+	// under --strict-equal the partition values '1' and '1.0' (texts) are different values
+	strictTexts := (qi == 0 || qi == 1 || qi == 15) && verifBool("strict-texts")
+	if strictTexts {
+		tx.Flags.StrictEqual = true
+	}
 	for i := 0; i < n; i++ {
 		if i > 0 {
 			part[i] = verifChoice("p", 2) // row 0 is in partition 0 (symmetry)
@@ -99,7 +104,11 @@ func VerifC17Analytic() {
 		} else {
 			v = value.NewInteger(val[i])
 		}
-		rows[i] = []value.Primary{value.NewInteger(int64(i)), value.NewInteger(int64(part[i])), value.NewInteger(key[i]), v}
+		var pv value.Primary = value.NewInteger(int64(part[i]))
+		if strictTexts {
+			pv = value.NewString([]string{"1", "1.0"}[part[i]])
+		}
+		rows[i] = []value.Primary{value.NewInteger(int64(i)), pv, value.NewInteger(key[i]), v}
 	}
 	// functions whose value depends on the order among tied rows are checked on distinct keys
 	tieSensitive := !(qi == 1 || qi == 2 || qi == 3 || qi == 4 || qi == 15)
